@@ -389,8 +389,84 @@ pub fn histories(depth: usize, thorough: bool) -> Vec<Vec<Ev>> {
     out
 }
 
+// ---- cold start: the service comes up on a log that already holds registrations ------------
+
+/// `log`: registrations appended while no handler service runs ("v" valid, "i" script that does
+/// not construct), each under its own name in context A; then the service starts.
+pub fn run_cold(log: &[String]) -> (Vec<F>, String) {
+    let mut fs = vec![];
+    let w = World::start(Serve::default());
+    let ctx = w.ctx_a;
+    let label = format!("cold start on {:?}", log);
+    let mut regs: Vec<(String, Scru128Id, bool)> = vec![];
+    for (i, k) in log.iter().enumerate() {
+        let name = format!("cold{}", i);
+        let valid = k == "v";
+        let src = if valid { lifecycle_script(&name) } else { "{run: {|a, b| 1}".to_string() };
+        let f = w.append_c(&format!("{}.register", name), ctx, Some(&src), None);
+        regs.push((name, f.id, valid));
+    }
+    let (s, e) = (w.store.clone(), xs::nu::Engine::new().expect("nu engine"));
+    w.rt.spawn(async move {
+        let _ = xs::handlers::serve(s, e).await;
+    });
+    // every retained registration is answered: started, or reported with its error
+    for (name, id, valid) in &regs {
+        let a = w.wait(|x| (x.topic == format!("{}.registered", name) || x.topic == format!("{}.unregistered", name)) && meta_str(x, "handler_id") == Some(id.to_string()), 10.0);
+        match (a, valid) {
+            (None, _) => fs.push(F { kind: "c16.cold.silent".into(), msg: format!("{}: registration {} ({}) was neither started nor reported", label, name, if *valid { "valid" } else { "invalid" }) }),
+            (Some(a), true) if a.topic.ends_with(".unregistered") => fs.push(F { kind: "c16.cold.valid_stopped".into(), msg: format!("{}: valid registration {} was reported as stopped: {:?}", label, name, a.meta) }),
+            (Some(a), false) if a.topic.ends_with(".registered") => fs.push(F { kind: "c16.cold.invalid_started".into(), msg: format!("{}: invalid registration {} was announced as registered", label, name) }),
+            (Some(a), false) => {
+                if meta_str(&a, "error").map(|e| e.is_empty()).unwrap_or(true) {
+                    fs.push(F { kind: "c16.unregistered.meta".into(), msg: format!("{}: no error on {:?}", label, a.meta) });
+                }
+            }
+            _ => {}
+        }
+    }
+    // the service is alive: a registration arriving now is served, and the started ones answer
+    let live = w.append_c("coldlive.register", ctx, Some(&lifecycle_script("coldlive")), None);
+    if w.wait(|x| x.topic == "coldlive.registered" && meta_str(x, "handler_id") == Some(live.id.to_string()), 10.0).is_none() {
+        fs.push(F { kind: "c16.cold.service_dead".into(), msg: format!("{}: a registration appended after the start-up is not served any more", label) });
+    }
+    if fs.is_empty() {
+        let ping = w.append_c("ping", ctx, None, None);
+        for (name, id, valid) in &regs {
+            if *valid && w.wait(|x| x.topic == format!("{}.out", name) && meta_str(x, "frame_id") == Some(ping.id.to_string()) && meta_str(x, "handler_id") == Some(id.to_string()), 10.0).is_none() {
+                fs.push(F { kind: "c16.active.silent".into(), msg: format!("{}: {} was announced but does not process frames", label, name) });
+            }
+        }
+        std::thread::sleep(Duration::from_millis(40));
+        let log2 = w.snapshot();
+        for (name, id, _) in &regs {
+            let n = log2.iter().filter(|x| (x.topic == format!("{}.registered", name) || x.topic == format!("{}.unregistered", name)) && meta_str(x, "handler_id") == Some(id.to_string())).count();
+            if n != 1 {
+                fs.push(F { kind: "c16.cold.announcements".into(), msg: format!("{}: {} announcements for {}", label, n, name) });
+            }
+        }
+    }
+    w.stop();
+    (fs, format!("cold{}", log.len()))
+}
+
+pub fn cold_logs() -> Vec<Vec<String>> {
+    let mut out = vec![];
+    for n in 1..=3usize {
+        for mask in 0..(1u32 << n) {
+            out.push((0..n).map(|i| if mask & (1 << i) != 0 { "i".to_string() } else { "v".to_string() }).collect());
+        }
+    }
+    out
+}
+
 pub fn worker() {
     common::worker_loop(move |job| {
+        if job.get("cold").is_some() {
+            let log: Vec<String> = serde_json::from_value(job["cold"].clone()).unwrap();
+            let (fs, outcome) = run_cold(&log);
+            return json!({"findings": fs.iter().map(|f| json!({"kind": f.kind, "msg": f.msg})).collect::<Vec<_>>(), "outcome": outcome});
+        }
         if job.get("race").is_some() {
             let prefix: Vec<usize> = serde_json::from_value(job["prefix"].clone()).unwrap();
             let (points, fs, outcome, error) = run_race(job["race"].as_str().unwrap(), &prefix);
@@ -471,6 +547,25 @@ pub fn run(tier: &str, report: &mut Report) {
             });
         }
     }
+    // (c) cold starts
+    let logs = cold_logs();
+    let jobs: Vec<Value> = logs.iter().map(|l| json!({"cold": l})).collect();
+    let results = common::pool_map("c16", &[], common::ncpu(), jobs);
+    for (l, r) in logs.iter().zip(results.iter()) {
+        if r.get("crashed").is_some() {
+            eprintln!("HARNESS ERROR: cold start {:?}: {}", l, r);
+            std::process::exit(2);
+        }
+        for f in r["findings"].as_array().cloned().unwrap_or_default() {
+            report.add_violation(Violation {
+                property: "C16".into(),
+                signature: format!("E5:cold:{}", f["kind"].as_str().unwrap_or("")),
+                message: f["msg"].as_str().unwrap_or("").to_string(),
+                replay: json!({"engine": "c16", "cold": l}),
+            });
+        }
+    }
+    report.cov("cold_starts", json!({"logs": logs.len(), "rule": "every log of 1..3 registrations (valid / not constructible) appended before the handler service starts"}));
     samples.push(json!({"history": hs.get(hs.len() / 2)}));
     report.cov("states", json!(race_points + hs.iter().map(|h| h.len() as u64).sum::<u64>()));
     report.cov("transitions", json!(race_points + hs.iter().map(|h| h.len() as u64).sum::<u64>()));
@@ -479,11 +574,16 @@ pub fn run(tier: &str, report: &mut Report) {
     report.cov("lifecycle", json!({"histories": hs.len(), "depth": if thorough { 4 } else { 3 }, "distinct_outcomes": houtcomes.len()}));
     report.cov("exhaustive", json!(true));
     report.cov("samples", json!(samples));
-    report.cov("explanation", json!("(a) every interleaving of {spawner: announce .registered} x {handler task: start (and subscribe)} x {client: wait for .registered, append trigger} for resume modes tail/head/after-id on the real Handler::spawn under the controlled scheduler, followed by a flush frame; (b) every history of register / invalid register / unregister / ok trigger / failing trigger over 2 names x 2 contexts up to the depth, against a model of the active instance per (context, name)"));
+    report.cov("explanation", json!("(a) every interleaving of {spawner: announce .registered} x {handler task: start (and subscribe)} x {client: wait for .registered, append trigger} for resume modes tail/head/after-id on the real Handler::spawn under the controlled scheduler, followed by a flush frame; (b) every history of register / invalid register / unregister / ok trigger / failing trigger over 2 names x 2 contexts up to the depth, against a model of the active instance per (context, name); (c) cold starts: every log of 1..3 valid / non-constructible registrations appended before the service starts - each is started or reported with its error exactly once, and the service keeps serving"));
 }
 
 pub fn replay(v: &Value) -> i32 {
-    let fs = if v.get("race").is_some() {
+    let fs = if v.get("cold").is_some() {
+        let log: Vec<String> = serde_json::from_value(v["cold"].clone()).unwrap();
+        let (fs, outcome) = run_cold(&log);
+        println!("outcome {}", outcome);
+        fs
+    } else if v.get("race").is_some() {
         let prefix: Vec<usize> = serde_json::from_value(v["prefix"].clone()).unwrap();
         let (pts, fs, outcome, error) = run_race(v["race"].as_str().unwrap(), &prefix);
         for p in &pts {
